@@ -71,6 +71,13 @@ class Stream:
         self.appended = 0
         self.returned = 0
         self.parses = 0
+        self.shared_ids = None  # optional caller-owned list object reused (and updated in place) for every parser call
+
+    def _ids_arg(self):
+        if self.shared_ids is None:
+            return self.id_objs
+        self.shared_ids[:] = self.id_objs
+        return self.shared_ids
 
     def append(self, n: int):
         n = max(0, min(n, len(self.stream) - self.appended))
@@ -83,7 +90,7 @@ class Stream:
     def parse(self):
         devs = []
         self.parses += 1
-        res = self.sp.parse_space_packets(self.queue, self.id_objs)
+        res = self.sp.parse_space_packets(self.queue, self._ids_arg())
         k = self.returned
         while k < len(self.spans) and self.spans[k][1] <= self.appended:
             k += 1
@@ -122,7 +129,7 @@ class Stream:
         if not devs and self.returned != len(self.packets):
             devs.append(Dev("final.missing", f"{len(self.packets) - self.returned} packets never returned"))
         if not devs:
-            again = self.sp.parse_space_packets(self.queue, self.id_objs)
+            again = self.sp.parse_space_packets(self.queue, self._ids_arg())
             if again:
                 devs.append(Dev("final.duplicate", f"a further parse call returned {len(again)} packets again"))
         return devs
@@ -215,6 +222,50 @@ def _schedule_classes(case):
 
 def _schedule_nt(case):
     return "cut inside packet" in _schedule_classes(case)
+
+
+# ---- two independent links served by one caller: same id-list object updated in place between calls ----------
+
+
+def st_two_links():
+    one = st_stream(max_packets=3, big=False)
+    return st.tuples(one, one, st.lists(st.tuples(st.integers(0, 1), st.integers(1, 12), st.booleans()), min_size=2, max_size=30)).map(
+        lambda t: {"a": t[0], "b": t[1], "steps": [list(x) for x in t[2]]}
+    )
+
+
+def run_two_links(case):
+    """Each link must behave exactly as if it were alone: the parser keeps no state between calls, in particular none keyed on the
+    identity of the id sequence it is given."""
+    links = [Stream(case["a"]), Stream(case["b"])]
+    shared = []
+    for ln in links:
+        ln.shared_ids = shared
+    for i, (which, n, do_parse) in enumerate(case["steps"]):
+        ln = links[which]
+        ln.append(n)
+        if do_parse:
+            devs = ln.parse()
+            if devs:
+                return [Dev(d.sub, f"link {'ab'[which]} after step {i}: {d.detail}") for d in devs]
+    for which, ln in enumerate(links):
+        devs = ln.finish()
+        if devs:
+            return [Dev(d.sub, f"link {'ab'[which]} at the end: {d.detail}") for d in devs]
+    return []
+
+
+def _two_links_classes(case):
+    a, b = Stream(case["a"]), Stream(case["b"])
+    out = []
+    if set(a.ids) != set(b.ids):
+        out.append("links with different id sets")
+    if a.packets and b.packets:
+        out.append("packets on both links")
+    which = [w for w, _, p in case["steps"] if p]
+    if any(which[i] != which[i + 1] for i in range(len(which) - 1)):
+        out.append("parse calls alternate between links")
+    return out
 
 
 # ---- exhaustive fragmentations of short streams ----------------------------------------------------
@@ -323,6 +374,16 @@ CLAUSES = [
         required=["cut inside header", "cut right after header", "cut one octet before end"],
         shards={"quick": 4, "thorough": 16},
         exhaustive_note="5 short streams (8..21 octets): all 2^(n-1) fragmentations in the thorough tier, all with <= 3 cuts in the quick tier",
+    ),
+    Clause(
+        id="C13.two_links",
+        doc="two independent streams with their own id sets are fed and parsed in an interleaved order through ONE id-list object that the caller updates in place before each call; each link must behave as if alone",
+        strategy=st_two_links,
+        check=run_two_links,
+        nontrivial=lambda c: set(_two_links_classes(c)) >= {"links with different id sets", "packets on both links", "parse calls alternate between links"},
+        classify=_two_links_classes,
+        required=["links with different id sets", "packets on both links", "parse calls alternate between links"],
+        n={"quick": 400, "thorough": 4000},
     ),
     Clause(
         id="C13.machine",
